@@ -50,6 +50,7 @@ TABLE = {
         "drivers": [
             {"driver": "timers", "required_clauses": ["timer-fire", "dispatch-owed", "wait-request", "wait-slept", "callback-legitimacy"]},
             {"driver": "batch", "required_clauses": ["timer-fire"]},
+            {"driver": "faults", "required_clauses": ["dispatch-end", "failed-registration-call"]},
         ],
     },
     "C12": {
@@ -58,6 +59,7 @@ TABLE = {
             {"driver": "wait", "required_clauses": ["wait-request", "wait-slept", "wait-forever", "timer-fire"]},
             {"driver": "timers", "required_clauses": ["wait-request"]},
             {"driver": "wait-real", "required_clauses": ["real-time-wait"], "shards": 1, "replayable": False},
+            {"driver": "async-io", "required_clauses": ["idle-after-completion"]},
         ],
     },
     "C06": {
@@ -80,6 +82,7 @@ TABLE = {
             {"driver": "ping-mt", "required_clauses": ["ping-delivery", "ping-close"],
              "opts": {"quick": {"threads": 2, "len": 2, "preempt": 2}, "thorough": {"threads": 2, "len": 3, "preempt": 3, "wall": 600}}},
             {"driver": "ping-seq", "required_clauses": ["callback-legitimacy", "dispatch-owed", "epoll-table"]},
+            {"driver": "transient", "required_clauses": ["transient", "change-in-process-events"], "opts": {"quick": {"dev": 1}, "thorough": {"dev": 2}}},
         ],
     },
     "C04": {
@@ -128,7 +131,7 @@ TABLE = {
                  "non-trivial = a callback ran and at least one fault or in-callback deviation took effect"),
         "assumptions": SEQ_ASSUME + ["faults are injected errors at the composite's registration steps (children registered before the failing step stay registered, as with a '?' in user code); a composite that is left partially registered by a failed enable/update/disable is its own business — the oracle protects the other sources and the loop bookkeeping"],
         "drivers": [
-            {"driver": "faults", "required_clauses": ["failed-insert", "failed-registration-call", "dispatch-end", "scripted-callback"]},
+            {"driver": "faults", "required_clauses": ["failed-insert", "failed-registration-call", "dispatch-end", "scripted-callback", "insert-retried", "timer-child-armed"]},
             {"driver": "postaction", "required_clauses": ["post-action"]},
             {"driver": "epoll", "required_clauses": ["duplicate-fd", "epoll-table"]},
         ],
@@ -139,6 +142,8 @@ TABLE = {
             {"driver": "epoll", "required_clauses": ["epoll-table", "blocking-mode-restored", "reinsert-released-fd", "executor-destroyed", "release"]},
             {"driver": "modes", "required_clauses": ["epoll-table"]},
             {"driver": "removal", "required_clauses": ["epoll-table"]},
+            {"driver": "postaction", "required_clauses": ["post-action"]},
+            {"driver": "crash-probe", "required_clauses": ["destructor-reentrancy"], "shards": 1, "replayable": False},
         ],
     },
     "C10": {
@@ -169,7 +174,7 @@ TABLE = {
         "assumptions": SEQ_ASSUME + ["'all byte strings' is covered by data independence (the adapter never inspects values; one position-dependent pattern per length shows loss, duplication and reordering) plus the length/chunk grid — a stated bound, not exhaustive over byte strings",
                                      "reader and writer of the *same* adapter pending simultaneously (single waker slot) is not generated"],
         "drivers": [
-            {"driver": "async-io", "required_clauses": ["async-io", "release"]},
+            {"driver": "async-io", "required_clauses": ["async-io", "release", "idle-after-completion"]},
             {"driver": "epoll", "required_clauses": ["blocking-mode-restored"]},
         ],
     },
